@@ -234,7 +234,11 @@ class ImageWriter:
             data = image.stream.get_data()
             i = 0
             for y in range(height):
-                bmp.write_line(y, data[i : i + bytes_per_line])
+                line = data[i : i + bytes_per_line]
+                if bits == 24:
+                    # a BMP pixel is stored as blue, green, red
+                    line = b"".join(line[j : j + 3][::-1] for j in range(0, len(line), 3))
+                bmp.write_line(y, line)
                 i += bytes_per_line
         return name
 
